@@ -19,7 +19,9 @@ RULE = (
     "Hypothesis-generated inheritance chains t0<-..<-tk (k<=3 quick, <=4 thorough; 1-5 block names; nested blocks; "
     "super()/super.super()/self.x(); scoped and unscoped blocks inside loops; required blocks; static / conditional-"
     "expression / variable / Template-object / if-wrapped extends; stray text, outputs, loops, includes, call blocks, filter "
-    "blocks, assignments and macros at the top level of children; blocks inside if/for/with/set-blocks of children), every template rendered as "
+    "blocks, assignments and macros at the top level of children; blocks inside if/for/with/set-blocks of children; required blocks also in "
+    "children whose extends is if-wrapped; environment autoescape off / on / callable-by-name, {% autoescape %} sections around "
+    "super()/self.b()/macro calls, `super() + text`, metacharacters in text and data), every template rendered as "
     "an entry in sync and async mode and compared with the reference resolver. Non-trivial = a super() call was executed "
     "on a block overridden at >=2 levels, or a scoped block saw local variables, or stray child content was suppressed / "
     "a stray assignment executed; distinct = distinct serialised case."
@@ -30,6 +32,8 @@ ASSUMPTIONS = [
     "(scoped) context, super() reaching a required block, multi-level required",
     "never generated: required placements that may be unreachable, blocks before the extends tag, free-variable reads in macro bodies",
     "errors are compared by class family only",
+    "escaping model: outputs are escaped by the lexical setting, block references / macro results are safe markup; cases where "
+    "the context's run-time setting and the lexical one differ visibly are discarded",
 ]
 
 _ERRS = None
@@ -135,6 +139,7 @@ FLOORS = {
     "exp_TemplateRuntimeError": 0.02, "stray_output_suppressed": 0.10, "stray_assignment_executed": 0.10,
     "extends_cond": 0.03, "extends_n": 0.05, "unscoped_in_local_scope": 0.03, "stray_include_suppressed": 0.02,
     "child_block_in_local_scope": 0.01, "stray_callblock_suppressed": 0.02, "stray_filterblock_suppressed": 0.02,
+    "autoescape_section_flips": 0.05,
 }
 
 
